@@ -1,8 +1,218 @@
 import HapVerif.Model.C17
 import HapVerif.Drv.Common
+/-!
+Line protocol of C17 (all lists `,`-separated, `-` = empty):
+
+* `verify <acct> <miss|crt:<notAfter>:<sans>> <now> <window> <declared> <crt key err> <setErr>`
+  `=> got=<b> sign=<domains|-> write=<b> err=<b> metric=<M|E|O|->:<b>`   (empty name = `_`)
+* `st <op;op;...>` with `F` | `D:<names>` | `Q:<name>:<chain>:<doms>` | `U:<leader><acct>` | `C`
+* `cyc <cycle;cycle;...>` with `<p|f><leader><acct>/<dirty>/<name:chain:doms+...>`
+* `conv <cycle|cycle|...>` with `<p|f><leader><acct>@<ing&ing...>`,
+  `ing = name~rulehost~<acme 0|1>~chain~<secret=hosts+secret=hosts...>`
+  the three of them `=> <adds>^<removes>;...#<items>` (one `adds^removes` per AcmeUpdate, items
+  `|`-separated, an item is the queue string `name,chain,d1,d2`, final storages after `#`)
+-/
 namespace HapVerif.C17
 open HapVerif.Drv
 
-def handle (_args : List String) (_impl : String) : Verdict := bad "C17-not-implemented"
+def parseBool (s : String) : Option Bool :=
+  if s = "1" then some true else if s = "0" then some false else none
+
+def parseName (s : String) : Name := if s = "_" then [""] else s.splitOn "."
+def showName (n : Name) : String := if n = [""] then "_" else ".".intercalate n
+def parseNames (s : String) : List Name := if s = "-" ∨ s = "" then [] else (s.splitOn ",").map parseName
+def showNames (l : List Name) : String := if l.isEmpty then "-" else ",".intercalate (l.map showName)
+def parseStrs (s : String) : List String := if s = "-" ∨ s = "" then [] else s.splitOn ","
+
+def parseSecret (s : String) : Option Secret :=
+  if s = "miss" then some .missing else
+  match s.splitOn ":" with
+  | ["crt", na, sans] => na.toInt?.map (fun na => .cert na (parseNames sans))
+  | _ => none
+
+def parseSign (s : String) : Option SignRes :=
+  match s.toList with
+  | [a, b, c] => do
+    pure { crt := ← parseBool a.toString, key := ← parseBool b.toString, err := ← parseBool c.toString }
+  | _ => none
+
+def showB (b : Bool) : String := if b then "1" else "0"
+
+def showVOut (o : VOut) : String :=
+  "got=" ++ showB o.got ++ " sign=" ++ (match o.signed with | some d => showNames d | none => "-") ++
+  " write=" ++ showB o.written ++ " err=" ++ showB o.err ++ " metric=" ++
+  (match o.metric with
+   | some (.missing, b) => "M:" ++ showB b
+   | some (.expiring, b) => "E:" ++ showB b
+   | some (.outdated, b) => "O:" ++ showB b
+   | none => "-:0")
+
+def field (kv key : String) : Option String :=
+  if kv.startsWith (key ++ "=") then some ((kv.drop (key.length + 1)).toString) else none
+
+def parseVOut (s : String) : Option VOut :=
+  match words s with
+  | [g, sg, w, e, m] => do
+    let g ← field g "got"; let sg ← field sg "sign"; let w ← field w "write"
+    let e ← field e "err"; let m ← field m "metric"
+    let metric ← match m.splitOn ":" with
+      | ["M", b] => (parseBool b).map (fun b => some (Reason.missing, b))
+      | ["E", b] => (parseBool b).map (fun b => some (Reason.expiring, b))
+      | ["O", b] => (parseBool b).map (fun b => some (Reason.outdated, b))
+      | ["-", _] => some none
+      | _ => none
+    pure { got := ← parseBool g, signed := if sg = "-" then none else some (parseNames sg),
+           written := ← parseBool w, err := ← parseBool e, metric := metric }
+  | _ => none
+
+/-! storages -/
+
+def showItem (e : String × Cert) : String := e.1 ++ "," ++ e.2.chain ++ "," ++ ",".intercalate e.2.doms
+
+def stripNs (n : String) : String := if n.startsWith "d/" then (n.drop 2).toString else n
+
+def parseItem (s : String) : Option (String × Cert) :=
+  match s.splitOn "," with
+  | n :: ch :: ds => some (stripNs n, { chain := ch, doms := addDoms [] (ds.filter (· ≠ "")) })
+  | _ => none
+
+def sortItems (m : SMap) : SMap := m.mergeSort (fun a b => !(b.1 < a.1))
+
+def showItems (m : SMap) : String :=
+  if m.isEmpty then "-" else "|".intercalate ((sortItems m).map showItem)
+
+def parseItems (s : String) : Option SMap :=
+  if s = "-" ∨ s = "" then some [] else (s.splitOn "|").mapM parseItem
+
+def showUpd (ops : List QOp) : String :=
+  let (a, r) := splitOps ops
+  showItems a ++ "^" ++ showItems r
+
+def showRun (outs : List (List QOp)) (items : SMap) : String :=
+  ";".intercalate (outs.map showUpd) ++ "#" ++ showItems items
+
+def parseUpd (s : String) : Option (List QOp) :=
+  match s.splitOn "^" with
+  | [a, r] => do
+    let a ← parseItems a; let r ← parseItems r
+    pure (a.map (fun e => QOp.add e.1 e.2) ++ r.map (fun e => QOp.remove e.1 e.2))
+  | _ => none
+
+def parseRun (s : String) : Option (List (List QOp) × SMap) :=
+  match s.splitOn "#" with
+  | [u, i] => do
+    let us ← if u = "" then some [] else (u.splitOn ";").mapM parseUpd
+    pure (us, ← parseItems i)
+  | _ => none
+
+/-- canonical comparison: both sides rendered with sorted items -/
+def agreeRun (outs : List (List QOp)) (items : SMap) (impl : String) : Bool :=
+  match parseRun impl with
+  | some (us, it) => showRun outs items == showRun us it
+  | none => false
+
+def parseOp (s : String) : Option Op :=
+  match s.splitOn ":" with
+  | ["F"] => some .clear
+  | ["C"] => some .commit
+  | ["D", ns] => some (.removeAll (parseStrs ns))
+  | ["Q", n, ch, ds] => some (.acq n ch (parseStrs ds))
+  | ["U", la] => match la.toList with
+    | [l, a] => do pure (.update (← parseBool l.toString) (← parseBool a.toString))
+    | _ => none
+  | _ => none
+
+def parseAcq (s : String) : Option Acq :=
+  match s.splitOn ":" with
+  | [n, ch, ds] => some ⟨n, ch, parseStrs ds⟩
+  | _ => none
+
+def parseHead (s : String) : Option (Bool × Bool × Bool) :=
+  match s.toList with
+  | [k, l, a] => do
+    let full ← if k = 'f' then some true else if k = 'p' then some false else none
+    pure (full, ← parseBool l.toString, ← parseBool a.toString)
+  | _ => none
+
+def parseCycle (s : String) : Option Cycle :=
+  match s.splitOn "/" with
+  | [h, d, as] => do
+    let (full, l, a) ← parseHead h
+    pure { full := full, leader := l, acct := a, dirty := parseStrs d,
+           acqs := ← parseList parseAcq as "+" }
+  | _ => none
+
+def parseTls (s : String) : Option Tls :=
+  match s.splitOn "=" with
+  | [sec, hs] => some ⟨if sec = "_" then "" else sec, parseStrs hs⟩
+  | _ => none
+
+def parseIng (s : String) : Option Ing :=
+  match s.splitOn "~" with
+  | [n, r, a, ch, tls] => do
+    pure { name := n, rule := r, acme := ← parseBool a, chain := if ch = "-" then "" else ch,
+           tls := ← parseList parseTls tls "+" }
+  | _ => none
+
+def parseConvCycle (s : String) : Option ConvCycle :=
+  match s.splitOn "@" with
+  | [h, w] => do
+    let (full, l, a) ← parseHead h
+    pure { full := full, leader := l, acct := a, world := ← parseList parseIng w "&" }
+  | _ => none
+
+/-- Spec on the observed queue operations of storages-level cycles; a cycle in which the
+harness itself broke the converter contract (in-place acquisition) is not judged -/
+def oracleCycles : Storages → List Cycle → List (List QOp) → Option String
+  | _, [], _ => none
+  | _, _ :: _, [] => some "missing-output"
+  | s, c :: cs, o :: os =>
+    let s' := (cycle s c).1
+    let v := if decide (c.wf s) then oracleCycle c.full c.leader c.acct s.items s'.items o else none
+    match v with
+    | some e => some e
+    | none => oracleCycles s' cs os
+
+def handle (args : List String) (impl : String) : Verdict :=
+  match args with
+  | ["verify", acct, sec, now, win, decl, sign, setErr] =>
+    match parseBool acct, parseSecret sec, now.toInt?, win.toInt?, parseSign sign, parseBool setErr with
+    | some acct, some sec, some now, some win, some sign, some setErr =>
+      let i : VIn := { acct := acct, secret := sec, now := now, window := win,
+                       declared := parseNames decl, sign := sign, setErr := setErr }
+      let m := notify i
+      match parseVOut impl with
+      | some o => { model := showVOut m, agree := m = o, oracle := oracleVerify i o }
+      | none => { model := showVOut m, agree := false, oracle := some ("panic-or-unparsable:" ++ impl) }
+    | _, _, _, _, _, _ => bad "parse-verify"
+  | ["st", ops] =>
+    match parseList parseOp ops ";" with
+    | some ops =>
+      let r := run {} ops
+      { model := showRun r.2 r.1.items, agree := agreeRun r.2 r.1.items impl,
+        oracle := if impl.startsWith "PANIC" then some "panic-storages" else none,
+        trivial := r.2.all (·.isEmpty) }
+    | none => bad "parse-st"
+  | ["cyc", cs] =>
+    match parseList parseCycle cs ";" with
+    | some cs =>
+      let r := runCycles {} cs
+      let orc := match parseRun impl with
+        | some (us, _) => oracleCycles {} cs us
+        | none => some "panic-or-unparsable"
+      { model := showRun r.2 r.1.items, agree := agreeRun r.2 r.1.items impl, oracle := orc,
+        trivial := r.2.all (·.isEmpty) }
+    | none => bad "parse-cyc"
+  | ["conv", cs] =>
+    match parseList parseConvCycle cs "|" with
+    | some cs =>
+      let r := runConv {} cs
+      let orc := match parseRun impl with
+        | some (us, _) => oracleConv [] cs us
+        | none => some "panic-or-unparsable"
+      { model := showRun r.2 r.1.st.items, agree := agreeRun r.2 r.1.st.items impl, oracle := orc,
+        trivial := r.2.all (·.isEmpty) }
+    | none => bad "parse-conv"
+  | _ => bad "C17"
 
 end HapVerif.C17
